@@ -147,11 +147,19 @@ class Solver(object):
                 solved_values.update(s)
                 progress = progress or (len(s) > 0)
 
+        # the atoms are named x_0, x_1, ... x_10, ...: order them by their number, not as text
+        def atom_index(k: Any) -> int:
+            return int(k.name.split("_", 1)[1])
+
         x_keys = sorted(
-            (k for k in solved_values.keys() if k.name.startswith("x")), reverse=True
+            (k for k in solved_values.keys() if k.name.startswith("x")),
+            key=atom_index,
+            reverse=True,
         )
         w_keys = sorted(
-            (k for k in solved_values.keys() if k.name.startswith("w")), reverse=True
+            (k for k in solved_values.keys() if k.name.startswith("w")),
+            key=atom_index,
+            reverse=True,
         )
         solution_list = [solved_values.get(k) for k in x_keys]
         witness_list = [solved_values.get(k) for k in w_keys]
